@@ -163,8 +163,8 @@ Spec == Init /\ [][Next]_vars
 \* not the receiving deployment's - another origin, or a sibling's URL that differs in the path, the
 \* query, a trailing slash or the letter case of the host - whatever either derives from its URL
 Why(h) == [otherKey   |-> Depl(h.by).key # Depl(h.to).key,
-           otherAud   |-> Depl(h.by).url # Depl(h.to).url,
-           otherIss   |-> Depl(h.by).url # Depl(h.to).url,
+           otherAud   |-> ~SameDeployment(Depl(h.by).url, Depl(h.to).url),     \* (the same URL in another spelling: left open)
+           otherIss   |-> ~SameDeployment(Depl(h.by).url, Depl(h.to).url),
            notSession |-> h.kind # "session",
            expired    |-> h.at >= SessLife + 1,
            notYet     |-> h.at <= -1]
@@ -180,7 +180,8 @@ OwnFreshSessionAuthenticates == \A i \in DOMAIN hist : MustAccept(hist[i]) => Ra
 Sym(h) == <<h.by, h.kind, h.to, h.p>>
 HistoryIndependent == \A i, j \in DOMAIN hist : Sym(hist[i]) = Sym(hist[j]) => Ran(hist[i]) = Ran(hist[j])
 \* no clock position sits on a boundary second: every presentation is decided by the statement
-Decided == \A i \in DOMAIN hist : Class(hist[i]) # "DontCare"
+\* every presentation is decided by the statement - except a token presented to the same deployment under another spelling of its URL
+Decided == \A i \in DOMAIN hist : Class(hist[i]) # "DontCare" \/ (hist[i].by # hist[i].to /\ SameDeployment(Depl(hist[i].by).url, Depl(hist[i].to).url))
 CacheUnused == ~ProcessWideCache => cache = {}
 
 (***************************** history emission ****************************)
